@@ -1388,7 +1388,8 @@ def stream_utils(run, only=None):
                 kf, kr = oom_true(x, "floor"), oom_true(x, "round")
                 m = Fr(10) ** (p - 1 - kr)
                 y = fx * m
-                tie_risk = abs(abs(y - (y.numerator // y.denominator)) - Fr(1, 2)) < Fr(1, 10**6) and m < 1
+                dist_half = abs(abs(y - (y.numerator // y.denominator)) - Fr(1, 2))
+                tie_risk = dist_half < Fr(1, 10**6) and not (dist_half == 0 and m >= 1)   # x*mags is rounded before np.round sees it
                 near = near_decade(a, half=True)
                 # as coded: a multiple of 1/mags within half of it
                 q = fr_ * m
